@@ -1,0 +1,38 @@
+//! Verification hooks. Compiled only with `--cfg helgoboss_midi_verif`.
+//!
+//! Provides a drop-in replacement for `std::time::Instant` whose clock is driven explicitly by
+//! the verification harness, so that time becomes an input of the polling scanner.
+use core::sync::atomic::{AtomicU32, AtomicU64, Ordering};
+use core::time::Duration;
+
+static NOW_SECS: AtomicU64 = AtomicU64::new(0);
+static NOW_NANOS: AtomicU32 = AtomicU32::new(0);
+
+/// Sets the current reading of the mock clock (duration since an arbitrary epoch).
+pub fn set_now(now: Duration) {
+    NOW_SECS.store(now.as_secs(), Ordering::SeqCst);
+    NOW_NANOS.store(now.subsec_nanos(), Ordering::SeqCst);
+}
+
+/// Returns the current reading of the mock clock.
+pub fn now() -> Duration {
+    Duration::new(
+        NOW_SECS.load(Ordering::SeqCst),
+        NOW_NANOS.load(Ordering::SeqCst),
+    )
+}
+
+/// Mock of `std::time::Instant` with the same contract: `now()` reads the clock, `elapsed()` is
+/// the time passed since then, saturating at zero.
+#[derive(Copy, Clone, Eq, PartialEq, Ord, PartialOrd, Hash, Debug)]
+pub struct Instant(Duration);
+
+impl Instant {
+    pub fn now() -> Instant {
+        Instant(now())
+    }
+
+    pub fn elapsed(&self) -> Duration {
+        now().checked_sub(self.0).unwrap_or(Duration::from_secs(0))
+    }
+}
